@@ -4,7 +4,9 @@ Decided:
   R07.a  when a redirect may be issued: the single redirect(...) in dispatch is dominated by: pattern
          matched, method admitted, route.is_branch, normalised path != request path, slash_mode ==
          S_REDIRECT; the strict branch records a not-found error and continues without executing; with
-         neither mode the path falls through to execute (rewrite);
+         neither mode the path falls through to execute (rewrite); the canonicity test compares
+         normalize_path(request path) and the request path in the same representation (both decoded, or both
+         through the same URL-quoting call) -- a canonical path must be a fixed point of the test;
   R07.b  the Location is escaped: the path component (derived from request.path via normalize_path)
          passes through a URL-quoting function whose ``safe`` set does not contain '?', '#' or '%' before
          it is concatenated; the query component derives from request.query_string and is not re-quoted;
@@ -124,20 +126,59 @@ def run(rep):
             raise AnalysisError('dispatch: expected exactly one normalize_path(...) call, found %d' % len(npc))
         npc = npc[0]
         nps = stmt_of(app, npc)
-        if not (isinstance(nps, ast.Assign) and nps.value is npc and len(nps.targets) == 1 and isinstance(nps.targets[0], ast.Name)):
+        if not (isinstance(nps, ast.Assign) and len(nps.targets) == 1 and isinstance(nps.targets[0], ast.Name)):
             raise AnalysisError('dispatch: the result of normalize_path(...) is not bound to a local')
         npv = nps.targets[0].id
         np_path = argn(npc, 'path', 0)
 
-        def is_noncanonical(t):
-            """polarity under which comparison ``t`` says: normalize_path(request path, ..) differs from the request path"""
+        def unwrap(e, depth=0):
+            """(kind, wrappers): kind is 'canon' when ``e`` is the normalize_path(request path, ..) call, 'req' when it is the
+            request path; either may sit inside a chain of calls applied to it (``url_quote(<canon>)``, ``<req>.rstrip('/')``),
+            listed outermost first.  (None, []) for anything else."""
+            if isinstance(e, ast.Call) and (e is npc or norm(e) == norm(npc)):
+                return 'canon', []
+            if np_path is not None and not isinstance(e, ast.Call) and (norm(e) == norm(np_path) or dv.is_request_attr(e, 'path')):
+                return 'req', []
+            if depth > 4 or not isinstance(e, ast.Call):
+                return None, []
+            kws = tuple(sorted((k.arg or '**', norm(k.value)) for k in e.keywords))
+            if e.args and not isinstance(e.args[0], ast.Starred):
+                k_, ws = unwrap(e.args[0], depth + 1)
+                if k_:
+                    return k_, [('call', call_tail(e), tuple(norm(a) for a in e.args[1:]), kws)] + ws
+            if isinstance(e.func, ast.Attribute):
+                k_, ws = unwrap(e.func.value, depth + 1)
+                if k_:
+                    return k_, [('method', e.func.attr, tuple(norm(a) for a in e.args), kws)] + ws
+            return None, []
+        np_kind, np_wrappers = unwrap(nps.value)
+        if np_kind != 'canon':
+            raise AnalysisError('dispatch: normalize_path(...) is used inside a larger expression that is not a chain of calls on its result')
+
+        def canonical_compare(t):
+            """(wrappers around the canonical path, wrappers around the request path) when ``t`` is an (in)equality between
+            the two, else None"""
             if not (isinstance(t, ast.Compare) and len(t.ops) == 1 and isinstance(t.ops[0], (ast.Eq, ast.NotEq))):
                 return None
-            a_, b_ = t.left, t.comparators[0]
-            for x, y in ((a_, b_), (b_, a_)):
-                if isinstance(x, ast.Call) and norm(x) == norm(npc) and np_path is not None and norm(y) == norm(np_path):
-                    return isinstance(t.ops[0], ast.NotEq)
+            (ka, wa), (kb, wb) = unwrap(t.left), unwrap(t.comparators[0])
+            if (ka, kb) == ('canon', 'req'):
+                return wa, wb
+            if (ka, kb) == ('req', 'canon'):
+                return wb, wa
             return None
+
+        def same_representation(wc, wr):
+            """the two operands of the canonicity test are comparable: both as they are (decoded), or both through the same
+            URL-quoting calls (percent-encoding with a fixed safe set is injective)"""
+            return wc == wr and all(w[0] == 'call' and w[1] in QUOTERS for w in wc)
+
+        def is_noncanonical(t):
+            """polarity under which comparison ``t`` -- the canonicity test -- says: normalize_path(request path, ..) differs
+            from the request path.  (Whether the test compares the two in the same representation is judged once, by the
+            obligation 'canonical test operands'; the control-flow rules below are about the outcome of the test.)"""
+            if canonical_compare(t) is None:
+                return None
+            return isinstance(t.ops[0], ast.NotEq)
 
         def is_mode(t, const):
             """polarity under which comparison ``t`` says: the route's slash mode is ``const``"""
@@ -162,7 +203,48 @@ def run(rep):
             rep.check('R07.a', fkey(f, 'redirect requires: ' + label), ok,
                       'redirect(...) is dominated by "%s"' % label if ok else
                       'a slash redirect can be issued although "%s" does not hold (conditions: %s)' % (label, '; '.join(cond_texts(cs))), app, rst)
+        # the canonicity test compares like with like: wherever dispatch compares the canonical path with the request path, both
+        # operands are in the same representation.  (A canonical path must be a fixed point: comparing a transformed -- quoted,
+        # stripped, re-cased -- canonical path with the request path as it came in makes some canonical paths "non-canonical".)
+        mixed, n_cmp, seen_cmp = [], 0, set()
+        for nid in [n.id for n in cfg.nodes if n.kind == 'branch' and cfg.reachable(n.id)]:
+            for t_, p_ in dv.branch_conds(nid):
+                t_ = strip_not(t_)[0]
+                cc = canonical_compare(t_)
+                if cc is None or norm(t_) in seen_cmp:
+                    continue
+                seen_cmp.add(norm(t_))
+                n_cmp += 1
+                if not same_representation(*cc):
+                    mixed.append((t_, cc))
+
+        def _chain(ws):
+            return ' after ' + ', then '.join('%s%s(..)' % ('.' if w[0] == 'method' else '', w[1]) for w in reversed(ws)) if ws else ' as it is'
+        if n_cmp:
+            rep.check('R07.a', fkey(f, 'canonical test operands'), not mixed,
+                      'the canonicity test compares normalize_path(request path) and the request path in the same representation' if not mixed else
+                      'the test that decides whether a path is canonical (%s) compares the canonical path%s with the request path%s: the two '
+                      'are in different representations, so a canonical path containing a character that transformation changes (a quoted '
+                      'space, %%, ?, #, non-ASCII) is judged non-canonical -- redirect mode redirects it to itself, strict mode answers 404'
+                      % (short(mixed[0][0], 70), _chain(mixed[0][1][0]), _chain(mixed[0][1][1])), app, nps)
         ok = isinstance(rst, ast.Return) and rst.value is rc
+        if not ok and isinstance(rst, ast.Assign) and rst.value is rc and len(rst.targets) == 1 and isinstance(rst.targets[0], ast.Name):
+            # the response is held in a local together with an outcome tag and returned further down (``outcome, result =
+            # REDIRECT, redirect(..)`` ... ``if outcome == REDIRECT: return result``): it is still "returned immediately" when
+            # every execution that passes the binding -- branches the tag rules out are not taken -- leaves dispatch through a
+            # ``return <that local>`` that can only read this binding, before the loop goes on or the route is executed
+            carrier = rst.targets[0].id
+            src = cfg.nodes_of(rst)
+            good = []
+            for r_ in returns_of(f):
+                if isinstance(r_.value, ast.Name) and r_.value.id == carrier:
+                    va = dv.value_at(carrier, r_)
+                    if va is not None and len(va) == 1 and va[0][0] is rst:
+                        good.append(r_)
+            after = [m for n_ in src for m in cfg.succ[n_] if (n_, m) not in cfg.exc_edges]
+            stray = cfg.reach(after, avoid=dv.infeasible_branches(src) | set(cfg.nodes_of_all(good)), normal_only=True) & \
+                (set(dv.head) | {cfg.exit} | set(cfg.nodes_of(dv.exec_st)))
+            ok = bool(good) and not stray
         rep.check('R07.a', fkey(f, 'redirect returned'), ok, 'the redirect response is returned immediately' if ok else
                   'the redirect response is not returned directly', app, rst)
         np_branch = argn(npc, 'is_branch', 1)
@@ -186,12 +268,21 @@ def run(rep):
         for s in addx:
             a = s.value.args[0]
             srcs = [x.value for x in stmts_of(f.node) if isinstance(x, ast.Assign) and norm(x.targets[0]) == norm(a)]
+            if isinstance(a, ast.Name) and len(srcs) > 1:
+                # a local with several bindings (an outcome's payload): the ones that can be read here, named temporaries followed
+                va = dv.value_at(a.id, s)
+                if va is not None:
+                    srcs = [dv.resolve(v_) for st_, v_ in va]
             if any(isinstance(v, ast.Call) and norm(v.func).endswith('not_found_type') for v in srcs) or \
                     (isinstance(a, ast.Call) and norm(a.func).endswith('not_found_type')):
                 addx_nf.append(s)
         exec_nodes = cfg.nodes_of(dv.exec_st)
-        ok = bool(strict_t) and bool(addx_nf) and cfg.must_pass(cfg.nodes_of_all(addx_nf), strict_t, dv.head + [cfg.exit], normal_only=True) and \
-            not (set(exec_nodes) & cfg.reach(strict_t, avoid=dv.head))
+        # (branches that an outcome tag set on the way rules out are not taken)
+        dead = dv.infeasible_branches(strict_t) if strict_t else set()
+        thru = set(cfg.nodes_of_all(addx_nf))
+        ok = bool(strict_t) and bool(addx_nf) and \
+            not ((set(dv.head) | {cfg.exit}) & cfg.reach(strict_t, avoid=thru | dead, normal_only=True)) and \
+            not (set(exec_nodes) & cfg.reach(strict_t, avoid=set(dv.head) | dead))
         rep.check('R07.a', fkey(f, 'strict mode'), ok,
                   'strict mode: a non-canonical path records a not-found error and the route is not executed' if ok else
                   'strict mode does not reliably skip the route with a recorded not-found error', app, addx_nf[0] if addx_nf else dv.loop)
@@ -208,13 +299,17 @@ def run(rep):
         # ---- R07.b -----------------------------------------------------------
         arg = rc.args[0]
 
-        _PCT, _BRACE = re.compile(r'%(?:s|r|d|%)'), re.compile(r'\{\}|\{\{|\}\}')
+        _PCT, _BRACE = re.compile(r'%(?:s|r|d|%)'), re.compile(r'\{([A-Za-z_]\w*)?\}|\{\{|\}\}')
 
-        def _interleave(fmt, directive, args, depth):
-            """template text and arguments of ``fmt % args`` / ``fmt.format(*args)`` in the order they appear in the result"""
+        def _interleave(fmt, directive, args, depth, named=None):
+            """template text and arguments of ``fmt % args`` / ``fmt.format(*args, **named)`` in the order they appear in the result"""
             fallback = [fmt]
-            for x in args:
+            for x in list(args) + list((named or {}).values()):
                 fallback.extend(pieces(x, depth + 1))
+            if not isinstance(fmt, ast.Constant):
+                folded = repo.try_fold(fmt, app)       # a template kept in a module-level constant
+                if isinstance(folded, str):
+                    fmt = ast.copy_location(ast.Constant(value=folded), fmt)
             if not (isinstance(fmt, ast.Constant) and isinstance(fmt.value, str)):
                 return fallback
             rest = directive.sub('', fmt.value)
@@ -229,6 +324,11 @@ def run(rep):
                     out.append(ast.copy_location(ast.Constant(value=lit), fmt))
                 pos = m.end()
                 if m.group(0) in ('%%', '{{', '}}'):
+                    continue
+                if directive is _BRACE and m.group(1):
+                    if not named or m.group(1) not in named:
+                        return fallback
+                    out.extend(pieces(named[m.group(1)], depth + 1))
                     continue
                 if i >= len(args):
                     return fallback
@@ -268,17 +368,19 @@ def run(rep):
                     out.extend(pieces(v.value if isinstance(v, ast.FormattedValue) else v, depth + 1))
                 return out
             if isinstance(e, ast.Call) and isinstance(e.func, ast.Attribute) and e.func.attr == 'format':
-                if e.keywords or any(isinstance(x, ast.Starred) for x in e.args):
+                if any(k.arg is None for k in e.keywords) or any(isinstance(x, ast.Starred) for x in e.args):
                     out = [e.func.value]
                     for x in list(e.args) + [k.value for k in e.keywords]:
                         out.extend(pieces(x, depth + 1))
                     return out
-                return _interleave(e.func.value, _BRACE, list(e.args), depth)
+                return _interleave(e.func.value, _BRACE, list(e.args), depth, dict((k.arg, k.value) for k in e.keywords))
             return [e]
         # locals carrying (decoded) request-path text: bound to request.path or to the normalised path, or computed from such a
         # local by anything but a URL-quoting call
         req_path = '%s.path' % dv.request
-        taint_roots, tainted_names = {npv}, {npv}
+        # (the local bound to normalize_path(..) itself holds decoded text; when the call is wrapped at its binding, the local holds
+        # whatever the wrapper returns: it is expanded like any other named temporary and judged as an expression)
+        taint_roots, tainted_names = ({npv}, {npv}) if not np_wrappers else (set(), set())
         from ..astutil import assigned_value
         all_locals = set(n.id for n in walk_body(f.node) if isinstance(n, ast.Name) and isinstance(n.ctx, ast.Store))
         for name in all_locals:
@@ -318,7 +420,7 @@ def run(rep):
         query_pieces = [p for p in ps if is_query(p) and not is_path_tainted(p)]
         root_pieces = [p for p in ps if 'url_root' in norm(p) or 'host_url' in norm(p)]
         ok = len(path_pieces) >= 1
-        rep.check('R07.b', fkey(f, 'Location has the canonical path'), ok and any(npv in names_loaded(p) for p in path_pieces),
+        rep.check('R07.b', fkey(f, 'Location has the canonical path'), ok and any(npv in names_loaded(p) or any(n is npc for n in ast.walk(p)) for p in path_pieces),
                   'the Location is built from the canonical path' if ok else 'the Location does not contain the canonical path', app, rst)
         for p in path_pieces:
             good = isinstance(p, ast.Call) and call_tail(p) in QUOTERS and p.args and is_path_tainted(p.args[0])
